@@ -1,7 +1,154 @@
 (** Property C09 — merged import requirements satisfy every contributor, order-independently.
-    Statements only; proofs live in proofs/Aggregator*.v.  (work in progress: first the refutations) *)
-From WacV Require Import Str Names NamesSpec Types Checker SubSpec Aggregator AggregatorSpec.
 
-Theorem placeholder_c09 : True.
-Proof. exact I. Qed.
-Print Assumptions placeholder_c09.
+    This file holds statements only; every proof is [exact <lemma>] (proofs/Aggregator*.v).
+    Model: model/Aggregator.v ([aggregate], [aggregate_all], [imports], [canonical]); specification:
+    spec/AggregatorSpec.v, spec/NamesSpec.v ([compat_spec_b], [higher]), spec/SubSpec.v ([SubCM], [sub_b]).
+
+    A *history* is a list of contributions [(name, (types, kind))] aggregated in order into the empty aggregator
+    with one shared checker: [aggregate_all ord cf fuel (agg0 tag) st0 l 0 = inl (a, s)] says that all of them
+    succeeded and left the aggregator [a].  [ord] is the iteration order of the [interfaces] HashMap. *)
+From Coq Require Import Permutation.
+From WacV Require Import Str Names NamesSpec Types Checker SubSpec Aggregator AggregatorSpec.
+From WacV Require Import SubSpecProofs AggregatorFrame AggregatorNames AggregatorCanonical AggregatorWitness.
+
+Notation history_ok ord cf fuel tag l a s := (aggregate_all ord cf fuel (agg0 tag) st0 l 0 = inl (a, s)).
+(** the concrete histories of the refutations run with the identity HashMap order, checker fuel 40, fuel 60 *)
+Lemma run_is : forall l, run l = aggregate_all (fun x => x) 40 60 (agg0 0) st0 l 0.
+Proof. reflexivity. Qed.
+Notation owner_free_history l := (Forall (fun c : str * (types * kind) => owner_free (fst (snd c))) l).
+
+(** * 1. Canonical names
+
+    Full statement (for every history): after any sequence of successful aggregations every contributed name maps,
+    through the redirects, to ONE canonical name per semver track; that name was contributed, is an import, and no
+    contributed name of the track has a higher version; [canonical] is idempotent; names of other tracks are untouched.
+
+    FALSE of the faithful model in general ([canonical_is_highest_refuted] below, replayed on the real aggregator:
+    known finding owner-import-bypasses-canonical-name).  Proved for histories in which no contributor collection
+    contains a resource alias with an owning interface ([owner_free]: [remap_resource] then never touches the imports). *)
+Theorem canonical_is_highest_partial : forall ord cf fuel tag l a s,
+  owner_free_history l -> history_ok ord cf fuel tag l a s ->
+  forall n, In n (map fst l) ->
+    In (Aggregator.canonical a n) (map fst l) /\
+    compat_spec_b n (Aggregator.canonical a n) = true /\
+    (forall m, In m (map fst l) -> compat_spec_b n m = true -> higher m (Aggregator.canonical a n) = false) /\
+    (forall m, In m (map fst l) -> compat_spec_b n m = true -> Aggregator.canonical a m = Aggregator.canonical a n).
+Proof. intros ord cf fuel tag l a s OF H. exact (history_canonical_is_highest ord cf fuel tag l a s OF H). Qed.
+Print Assumptions canonical_is_highest_partial.
+
+Theorem redirects_total_partial : forall ord cf fuel tag l a s,
+  owner_free_history l -> history_ok ord cf fuel tag l a s ->
+  (forall n, In n (map fst l) -> In (Aggregator.canonical a n) (map fst (imports a))) /\
+  (forall k, In k (map fst (imports a)) -> In k (map fst l) /\ Aggregator.canonical a k = k) /\
+  (forall k1 k2, In k1 (map fst (imports a)) -> In k2 (map fst (imports a)) -> compat_spec_b k1 k2 = true -> k1 = k2).
+Proof.
+  intros ord cf fuel tag l a s OF H. split; [|split].
+  - exact (history_redirects_total ord cf fuel tag l a s OF H).
+  - exact (history_imports_contributed ord cf fuel tag l a s OF H).
+  - exact (history_one_import_per_track ord cf fuel tag l a s OF H).
+Qed.
+Print Assumptions redirects_total_partial.
+
+Theorem canonical_idempotent_partial : forall ord cf fuel tag l a s,
+  owner_free_history l -> history_ok ord cf fuel tag l a s ->
+  forall n, Aggregator.canonical a (Aggregator.canonical a n) = Aggregator.canonical a n.
+Proof. intros ord cf fuel tag l a s OF H. exact (history_canonical_idempotent ord cf fuel tag l a s OF H). Qed.
+Print Assumptions canonical_idempotent_partial.
+
+(** one more aggregation leaves the canonical name of every name of another track alone *)
+Theorem other_tracks_untouched_partial : forall ord cf fuel tag l a s name t k a' s',
+  owner_free_history l -> history_ok ord cf fuel tag l a s -> owner_free t ->
+  aggregate ord cf fuel a s name t k = AOk (a', s') ->
+  forall m, compat m name = false -> Aggregator.canonical a' m = Aggregator.canonical a m.
+Proof.
+  intros ord cf fuel tag l a s name t k a' s' OF H OFt E m C.
+  exact (aggregate_other_tracks ord cf fuel a s name t k a' s' _ m OFt (history_inv ord cf fuel tag l a s OF H) E C).
+Qed.
+Print Assumptions other_tracks_untouched_partial.
+
+(** with owned resources: two imports on one track after a successful history, and aggregating the same
+    requirements once more changes the import list (refutes [redirects_total] and [aggregate_idempotent] in general) *)
+Theorem canonical_is_highest_refuted :
+  exists l a s k1 k2, run l = inl (a, s) /\
+    In k1 (map fst (imports a)) /\ In k2 (map fst (imports a)) /\ str_eqb k1 k2 = false /\ compat_spec_b k1 k2 = true /\
+    exists a2 s2, aggregate_all (fun x => x) 40 60 a s l 0 = inl (a2, s2) /\
+                  list_eqb str_eqb (map fst (imports a2)) (map fst (imports a)) = false.
+Proof. exists w_owner. exact owner_witness. Qed.
+Print Assumptions canonical_is_highest_refuted.
+
+(** * 2. The merged type satisfies every contributor
+
+    Full statement: for every successful history and every contribution (n, (t, k)) of it,
+      Sub (unfold (a_types a) (imports a (canonical a n))) (unfold t k).
+    FALSE of the faithful model ([merge_upper_bound_refuted]: an export that is an instance on both sides is resolved by
+    a subtype check that keeps the supertype; [merge_upper_bound_component_refuted]: component imports are united).
+    Both witnesses are replayed on the real aggregator and SubtypeChecker (known findings nested-instance-not-united,
+    component-imports-united). *)
+Theorem merge_upper_bound_refuted :
+  exists l a s c tm tr, run l = inl (a, s) /\ In c l /\
+    merged_tree a (fst c) = Some tm /\ req_tree c = Some tr /\ resfree tm = true /\ resfree tr = true /\ ~ SubCM tm tr.
+Proof.
+  destruct upper_bound_witness_nested as [a [s [c [tm [tr [H1 [H2 [H3 [H4 [H5 [H6 [H7 _]]]]]]]]]]]].
+  exists w_nested, a, s, c, tm, tr.
+  refine (conj H1 (conj H2 (conj H3 (conj H4 (conj H5 (conj H6 _)))))). intro X. apply sub_b_iff in X. congruence.
+Qed.
+Print Assumptions merge_upper_bound_refuted.
+
+Theorem merge_upper_bound_component_refuted :
+  exists l a s tm, run l = inl (a, s) /\ merged_tree a [102;111;111] = Some tm /\
+    forall c, In c l -> exists tr, req_tree c = Some tr /\ ~ SubCM tm tr.
+Proof.
+  destruct upper_bound_witness_component as [a [s [tm [H1 [H2 H3]]]]].
+  exists w_comp, a, s, tm. refine (conj H1 (conj H2 _)). intros c Hc. destruct (H3 c Hc) as [tr [E X]]. exists tr.
+  refine (conj E _). intro Y. apply sub_b_iff in Y. congruence.
+Qed.
+Print Assumptions merge_upper_bound_component_refuted.
+
+(** * 3. Order independence and failure
+
+    Full statements: for permutations of the contributor list success is the same and the name -> tree map is the
+    same up to the order of imports and exports; aggregation fails exactly when two contributors require
+    incompatible definitions of one item.  FALSE of the faithful model: *)
+Theorem aggregate_order_indep_refuted :
+  exists l l', Permutation l l' /\ (exists a s, run l = inl (a, s)) /\
+               (exists p e, run l' = inr (p, AErr e)).
+Proof. exact order_witness. Qed.
+Print Assumptions aggregate_order_indep_refuted.
+
+(** the merged map itself can depend on the order even when every order succeeds (one interface identifier under two
+    import names) *)
+Theorem aggregate_order_indep_map_refuted :
+  exists l l' a s a' s' n t t', Permutation l l' /\ run l = inl (a, s) /\
+    run l' = inl (a', s') /\ merged_tree a n = Some t /\ merged_tree a' n = Some t' /\ ~ SubCM t' t.
+Proof.
+  destruct shared_id_witness as [l [l' [a [s [a' [s' [n [t [t' [P [H1 [H2 [H3 [H4 H5]]]]]]]]]]]]]].
+  exists l, l', a, s, a', s', n, t, t'. refine (conj P (conj H1 (conj H2 (conj H3 (conj H4 _))))).
+  intro X. apply sub_b_iff in X. congruence.
+Qed.
+Print Assumptions aggregate_order_indep_map_refuted.
+
+(** failure (and a panic) although the two requirements have a merge that satisfies both *)
+Theorem fails_iff_conflict_refuted :
+  (exists l p e ta tb tm, run l = inr (p, AErr e) /\
+      req_tree (nth 0 l dflt) = Some ta /\ req_tree (nth 1 l dflt) = Some tb /\ length l = 2%nat /\
+      tmerge ta tb = Some tm /\ SubCM tm ta /\ SubCM tm tb) /\
+  (exists l ta tb tm, run l = inr (1%nat, APanic) /\
+      req_tree (nth 0 l dflt) = Some ta /\ req_tree (nth 1 l dflt) = Some tb /\ length l = 2%nat /\ tmerge ta tb = Some tm).
+Proof.
+  split.
+  - destruct failure_witness_disjoint as [p [e [ta [tb [tm [H1 [H2 [H3 [H4 [H5 H6]]]]]]]]]].
+    exists w_disjoint, p, e, ta, tb, tm.
+    refine (conj H1 (conj H2 (conj H3 (conj eq_refl (conj H4 (conj _ _)))))); now apply sub_b_iff.
+  - destruct panic_witness as [H1 [ta [tb [H2 [H3 [tm H4]]]]]]. exists w_panic, ta, tb, tm.
+    exact (conj H1 (conj H2 (conj H3 (conj eq_refl H4)))).
+Qed.
+Print Assumptions fails_iff_conflict_refuted.
+
+(** Non-vacuity of the partial theorems: three versions of one track arriving as 0.2.1, 0.2.0, 0.2.3. *)
+Example canonical_nonvacuous :
+  owner_free_history w_flat /\
+  exists a s, run w_flat = inl (a, s) /\ map fst (imports a) = [n_023] /\
+              map (Aggregator.canonical a) (map fst w_flat) = [n_023; n_023; n_023].
+Proof.
+  split; [exact w_flat_owner_free|]. destruct flat_run as [a [s [H1 [H2 [H3 _]]]]]. exists a, s. exact (conj H1 (conj H2 H3)).
+Qed.
